@@ -319,7 +319,7 @@ pub fn run(ctx: &Ctx) -> i32 {
         Finish {
             ctx,
             level: "exploration",
-            rule: "base history H (<= 40 ops, well-formed traffic so that ports become master/slave/passive and hold half-collected exchanges; 1-2 ports; acceptable-master lists on half of the ports; recording or Kalman filter) and insertions of noise frames, each built from a frame that would have had an effect in the state at the insertion point and then broken in exactly one way (other domainNumber / majorSdoId / minorSdoId, versionPTP != 2, malformed in 5 ways, Announce from outside the acceptable list or with the port's own identity, Sync/Follow_Up/Delay_Resp not from the selected parent, Delay_Resp for another requester, slave traffic while not slave). Run A = H, run B = H with insertions on identically seeded ports; oracle: identical action lists, port states, data sets, clock-call log, filter log, link delays and armed timers after every op of H, and every inserted call returns no actions and changes nothing. Non-trivial = >= 1 insertion while the port is Slave and H alone changes state or produces a measurement; distinct by (H, insertion classes and positions). Part daemon: the real statime daemon slaved for 4 s to a grandmaster played by the harness whose clock is the system clock, then 3-5 s more while 40-120 frames per second of the same classes are added (header-level disguises of frames that would have had an effect; Announce with the receiving port's own identity or from outside the acceptable master list (half of the daemons have one); Sync / Follow_Up / Delay_Resp not from the parent or for another requester, placed between the parent's Sync and Follow_Up or ahead of its Delay_Resp with the very sequence id; timestamps 5 ms..5 s off); oracle: observable port states, parentDS, stepsRemoved and timePropertiesDS never change, every logged measurement stays within 2 ms of zero (before the noise: within 0.6 ms, else inconclusive), no more measurements than honest exchanges, the master port's Announces count on by one with one content, no Delay_Resp / Pdelay_Resp to a requester of another domain. Non-trivial there = >= 50 noise frames and >= 5 measurements of each kind.",
+            rule: "base history H (<= 40 ops, well-formed traffic so that ports become master/slave/passive and hold half-collected exchanges; 1-2 ports; acceptable-master lists on half of the ports; recording or Kalman filter) and insertions of noise frames, each built from a frame that would have had an effect in the state at the insertion point and then broken in exactly one way (other domainNumber / majorSdoId / minorSdoId, versionPTP != 2, malformed in 5 ways, Announce from outside the acceptable list or with the port's own identity, Sync/Follow_Up/Delay_Resp not from the selected parent, Delay_Resp for another requester, slave traffic while not slave). Run A = H, run B = H with insertions on identically seeded ports; oracle: identical action lists, port states, data sets, clock-call log, filter log, link delays and armed timers after every op of H, and every inserted call returns no actions and changes nothing. Non-trivial = >= 1 insertion while the port is Slave and H alone changes state or produces a measurement; distinct by (H, insertion classes and positions). Part daemon: the real statime daemon slaved for 4 s to a grandmaster played by the harness whose clock is the system clock, then 3-5 s more while 40-120 frames per second of the same classes are added (header-level disguises of frames that would have had an effect; Announce with the receiving port's own identity or from outside the acceptable master list (half of the daemons have one); Sync / Follow_Up / Delay_Resp not from the parent or for another requester, placed between the parent's Sync and Follow_Up or ahead of its Delay_Resp with the very sequence id; timestamps 5 ms..5 s off); oracle: observable port states, parentDS, stepsRemoved and timePropertiesDS never change, every logged measurement stays within 2 ms of zero (before the noise: within 0.6 ms, else inconclusive), no more measurements than honest exchanges, the master port's Announces count on by one with one content, no Delay_Resp / Pdelay_Resp to a requester of another domain, no two Announces or Syncs of the master port closer than 0.8 interval; workers 4-7 configure the second port master-only. Non-trivial there = >= 50 noise frames and >= 5 measurements of each kind.",
             assumptions: vec!["only the noise classes named in the statement are inserted (a Delay_Resp from the parent for this port with a stale sequence id is not noise)".into()],
             min_nontrivial: 100,
         },
